@@ -254,6 +254,11 @@ A parameter with a default of another kind makes the function untranslatable (no
 Also added there: `o or d` for an optional object `o` (no `__bool__` / `__len__`) and a default `d` that can raise / is a
 translated call (`antecedent or Antecedent()`): `d` is evaluated only when `o` is `None`.
 
+Two list forms added for the getter of `Engine.output_values` (profiles `engineio.py`): a list display whose elements
+are all unpacked lists of one type, `[*a, *b]`, is `a ++ b` (the lists are evaluated left to right); `l[k:]` with a natural
+lower bound and nothing else in the slice is `List.drop k l` (`l` is evaluated before `k`; a bound beyond the end gives
+the empty list in Python and in Lean alike).
+
 Anything outside the subset raises `Untranslatable` - the tie is then reported as broken (never silently skipped).
 """
 from __future__ import annotations
@@ -913,6 +918,13 @@ class Fn:
                     return self.bind1(base, lambda x: f"(Py.top {x})", elem_type(base.ty), partial=True)
                 if base.ty.startswith("List "):
                     return self.bind1(base, lambda x: f"(Py.last {x})", elem_type(base.ty), partial=True)
+            if (base.ty.startswith("List ") and isinstance(idx, ast.Slice) and idx.lower is not None and idx.upper is None
+                    and idx.step is None):
+                # `l[k:]` for a natural `k`: the list without its first `k` elements (empty when `k` exceeds its length)
+                k = self.ce(idx.lower)
+                if k.ty != "Nat":
+                    raise Untranslatable(f"slice {ast.unparse(node)}: the lower bound has type {k.ty}, not Nat")
+                return self.bind2(base, k, lambda a, b: f"(List.drop {paren(b)} {paren(a)})", base.ty)
             if base.ty.startswith("List "):
                 i = self.ce(idx)
                 if i.ty == "Nat":
@@ -989,6 +1001,15 @@ class Fn:
                     return self.bind2(a, b, lambda x, y: f"({f.id} {paren(x)} {paren(y)})", ty)
         if isinstance(node, ast.List) and not node.elts:
             return E("[]", "List _")
+        if isinstance(node, ast.List) and all(isinstance(x, ast.Starred) for x in node.elts):
+            # `[*a, *b]`: the elements of the lists one after the other (the lists are evaluated left to right)
+            es = [self.ce(x.value) for x in node.elts]
+            if len({x.ty for x in es}) != 1 or not es[0].ty.startswith("List ") or "_" in es[0].ty:
+                raise Untranslatable(f"list display of unpacked values that are not lists of one type: {ast.unparse(node)}")
+            acc = es[0]
+            for x in es[1:]:
+                acc = self.bind2(acc, x, lambda a, b: f"({a} ++ {b})", es[0].ty)
+            return acc
         if isinstance(node, ast.List):
             es = [self.ce(x) for x in node.elts]
             if len({x.ty for x in es}) != 1:
